@@ -55,6 +55,7 @@ type Summary struct {
 	Steps       uint64             `json:"steps"`
 	Switches    int                `json:"switches"`
 	SimTimeNs   int64              `json:"sim_time_ns"`
+	SimTimeS    float64            `json:"sim_time_s"`
 	WallUs      int64              `json:"wall_us"`
 	Counters    map[string]int     `json:"counters"`
 	Sites       []string           `json:"sites"`
@@ -187,6 +188,7 @@ func batch(t *testing.T, spec *Spec) {
 		sum.Steps += res.Steps
 		sum.Switches += res.Switches
 		sum.SimTimeNs += res.SimTimeNs
+		sum.SimTimeS += float64(res.SimTimeNs) / 1e9 // (the ns sum overflows after ~292 simulated years)
 		sum.WallUs += res.WallUs
 		sum.Stops[res.StopReason]++
 		for k, v := range res.Counters {
